@@ -228,6 +228,11 @@ func runC06(em *vEmitter, r *vRng) {
 		ms.plant("alice", false, 1, 1600000001, r.bytes(16), []byte("alicepw"), "totp: QQ==\n")
 		ms.plant("bob", false, 2, 1600000002, r.bytes(32), []byte("bobpw"), "")
 		ms.plant("carol", true, 3, 1600000003, r.bytes(16), []byte("carolpw"), "")
+		// names that a sloppy comparison (case folding, prefix, trimming) would confuse with "alice"
+		ms.plant("Alice", false, 1, 1600000004, r.bytes(16), []byte("Alicepw"), "")
+		ms.plant("ALICE", true, 1, 1600000005, r.bytes(16), []byte("ALICEpw"), "")
+		ms.plant("alice2", false, 1, 1600000006, r.bytes(16), []byte("alice2pw"), "")
+		ms.plant("alic", false, 1, 1600000007, r.bytes(16), []byte("alicpw"), "")
 		st, err := NewStore(ms.cfgfile, "", "", "", "")
 		if err != nil {
 			panic(err)
@@ -237,7 +242,8 @@ func runC06(em *vEmitter, r *vRng) {
 			panic(err)
 		}
 		h, _ := mux.Handler(httptest.NewRequest("POST", "/api/list", nil))
-		x := &c06Run{ms: ms, mux: mux, sess: h.(webHandler).sessions, pw: map[string]string{"root": "rootpw", "alice": "alicepw", "bob": "bobpw", "carol": "carolpw"}}
+		x := &c06Run{ms: ms, mux: mux, sess: h.(webHandler).sessions, pw: map[string]string{"root": "rootpw", "alice": "alicepw", "bob": "bobpw", "carol": "carolpw",
+			"Alice": "Alicepw", "ALICE": "ALICEpw", "alice2": "alice2pw", "alic": "alicpw"}}
 		x.other, _ = NewWebSessionFactory(600 * time.Second)
 		x.initDir = ms.snapshotTerm()
 		x.lastSnap = x.initDir
@@ -272,7 +278,39 @@ func runC06(em *vEmitter, r *vRng) {
 			credKinds = append(credKinds, k)
 		}
 		sortStrings(credKinds)
-		targets := []string{"alice", "bob", "carol", "root", "nobody", "../x", "", "new" + strconv.Itoa(seq), "al:ice"}
+		targets := []string{"alice", "bob", "carol", "root", "nobody", "../x", "", "new" + strconv.Itoa(seq), "al:ice",
+			"Alice", "ALICE", "alice2", "alic", "alice ", " alice", "alice\x00", "Bob", "ROOT"}
+		near := []string{"Alice", "ALICE", "alice2", "alic", "alice ", "Bob", "alice"}
+		do := func(ep string, b c06Body, shape string) {
+			before := x.lastSnap
+			status, _ := x.request(ep, b, shape)
+			// keep the harness's own view of current passwords in step with acknowledged changes
+			if status == 200 && x.lastSnap != before {
+				_, dec := c06Json(ep, b, shape)
+				if dec != nil {
+					switch ep {
+					case "update":
+						x.pw[dec.username] = dec.new
+					case "add":
+						x.pw[dec.username] = dec.password
+					case "remove":
+						delete(x.pw, dec.username)
+					}
+				}
+			}
+		}
+		// systematic part: every non-admin credential against every target on the session form of
+		// update, and on one management endpoint (rotating), with a well-formed body
+		mgmt := []string{"add", "remove", "set-admin", "list", "list-full"}
+		for _, cred := range []string{"user", "user2", "ghost-admin", "expired-admin", "other-instance", "tampered-admin"} {
+			for _, tgt := range targets {
+				if cred != "user" && cred != "user2" && r.intn(4) != 0 {
+					continue
+				}
+				do("update", c06Body{session: tokens[cred], username: tgt, new: "sys" + strconv.Itoa(r.intn(1000))}, "valid")
+				do(mgmt[r.intn(len(mgmt))], c06Body{session: tokens[cred], username: tgt, password: "pwx", admin: r.intn(2) == 0}, "valid")
+			}
+		}
 		n := 45
 		for i := 0; i < n; i++ {
 			ep := eps[r.intn(len(eps))]
@@ -282,6 +320,9 @@ func runC06(em *vEmitter, r *vRng) {
 				cred = []string{"admin", "user", "admin2"}[r.intn(3)]
 			}
 			tgt := targets[r.intn(len(targets))]
+			if (cred == "user" || cred == "user2") && r.intn(2) == 0 {
+				tgt = near[r.intn(len(near))] // an ordinary session aimed at a look-alike of its own name
+			}
 			b := c06Body{session: tokens[cred], username: tgt, password: "pw" + strconv.Itoa(r.intn(3)), admin: r.intn(2) == 0}
 			switch ep {
 			case "authenticate":
@@ -319,22 +360,7 @@ func runC06(em *vEmitter, r *vRng) {
 					b.password = ""
 				}
 			}
-			before := x.lastSnap
-			status, _ := x.request(ep, b, shape)
-			// keep the harness's own view of current passwords in step with acknowledged changes
-			if status == 200 && x.lastSnap != before {
-				_, dec := c06Json(ep, b, shape)
-				if dec != nil {
-					switch ep {
-					case "update":
-						x.pw[dec.username] = dec.new
-					case "add":
-						x.pw[dec.username] = dec.password
-					case "remove":
-						delete(x.pw, dec.username)
-					}
-				}
-			}
+			do(ep, b, shape)
 		}
 		coq := fmt.Sprintf("WebSeq %s %s %s %s %d %s", ms.cfgTerm(), ms.tablesTerm(), x.initDir, cList(x.logInit), 600000, cList(x.steps))
 		c := vCase{Prop: "C06", Kind: "webseq", Class: "sequence", Nontrivial: true, Coq: coq, Human: map[string]interface{}{"requests": x.human}}
